@@ -282,7 +282,7 @@ class SamplerCore:
             d = dill.load(f)
 
         # Restore state manager
-        self.state.from_dict(d)
+        self.state.update_from_dict(d)
 
         # Ensure all required keys exist with valid types (backward compatibility)
         # Some older state files may be missing certain keys
